@@ -47,7 +47,7 @@ RULE = ("operation sequences (set_field, e[k]=v, pop, del e[k]; then a probe blo
         "entry, operation list) or (block, perturbation); non-trivial = at least one call replaces, removes or misses an "
         "existing key (several entries: a key whose Field object is also held by another entry), or the pair differs in "
         "exactly one attribute / is a copy; worlds: a new key is written to an entry while another entry built the same way is alive; odd streams: an operation addresses a key bound to an object of a Field subclass, or "
-        "the caller edits e.fields")
+        "the caller edits e.fields; edit streams: an edit was made after at least one lookup")
 TRUSTED = ["field identity is observed through unique start_line tags given to every Field the harness creates",
            "the several-entries streams have no counterpart in the Coq model (the model has no object identity across "
            "entries): they are judged by the Python oracle alone",
@@ -58,6 +58,10 @@ TRUSTED = ["field identity is observed through unique start_line tags given to e
            "copy shares the field list of its source (copy.copy copies attributes): after a write through one of the two the "
            "other's reference dict is re-read from e.fields (convention of the caller-edit steps); what a newly parsed entry "
            "holds is read off the generator's own description of the text (simple braced / quoted / numeric values)",
+           "caller edits through the list e.fields / the fields setter (edit-list stream, most of edit-exh) have no counterpart in "
+           "the Coq model (its entries have no list object of their own): Python oracle alone, with the convention of the "
+           "odd-* streams that the reference dict is re-read from e.fields after such an edit; edits through Field objects "
+           "(rename, value, exchange of keys) are run a second time on fresh objects and compared with Model/EntryObj.v",
            "entries with more than 300 fields (big-ops stream) and the big-multi stream are not sent to the Coq model (the "
            "extracted model needs seconds per such case): Python oracle alone",
            "values containing dicts or foreign objects are outside the executable equality model (skipped for the model "
@@ -196,6 +200,11 @@ def generate(rng, tier):
     # 9. worlds of entries obtained in every way (parsed from every layout, constructed with every argument form, copies,
     #    subclasses), every live entry compared with its own reference dict after every step
     cases += world_cases(__import__("random").Random(rng.random()), tier)
+    # 10. caller edits of the public objects (Field.key / Field.value setters, the list e.fields, the fields setter) BETWEEN
+    #     mapping operations, above all the length-preserving ones, then lookups / writes of the new and the old key
+    from props import c19_edit
+    if not __import__("os").environ.get("C19_TMP_NO_EDIT"):
+        cases += c19_edit.edit_cases(__import__("random").Random(rng.random()), tier)
     return cases
 
 
@@ -1995,6 +2004,23 @@ def obj_run(ents, objs, steps):
                     prog.append([0, t, [7, ids[id(r)]]])
                     snap([0])
                 continue
+            if op in ("okey_of", "oval_of"):
+                # the caller writes into Field objects of entry st[1] that it found by their keys (all found first, then
+                # written one after the other): ["okey_of", e, [[old, new], ...]] / ["oval_of", e, key, value]
+                fl = list(ents[st[1]].fields)
+                pairs = st[2] if op == "okey_of" else [[st[2], st[3]]]
+                found = [next((x for x in fl if x.key == old), None) for old, _ in pairs]
+                if any(x is None or id(x) not in ids for x in found):
+                    continue
+                for o, (_, val) in zip(found, pairs):
+                    if op == "okey_of":
+                        o.key = val
+                        prog.append([2, ids[id(o)], S(val)])
+                    else:
+                        o.value = val
+                        prog.append([1, ids[id(o)], enc.enc_value(val)])
+                    snap([0])
+                continue
             if op in ("setobj", "oval", "okey"):
                 if not keep:
                     continue
@@ -2052,6 +2078,9 @@ def obj_run(ents, objs, steps):
 
 
 def impl(case):
+    if "edit" in case["input"]:
+        from props import c19_edit
+        return c19_edit.impl_edit(case)
     if "objprog" in case["input"]:
         return impl_obj(case)
     if "eq" in case["input"]:
